@@ -411,7 +411,9 @@ pub fn tx_monitors(h: &Hist, ms: &mut MonState, b: &Obs, line: &str, res: &str, 
                 let locked = delta(b, a, "pm", &lp).max(0) as u128;
                 // when the LP is locked for the depositor the freshly minted shares transit through the pool manager
                 let minted = sa - sb;
-                if matches!(pb.pool_type, PoolType::ConstantProduct) && pb.assets.len() == 2 {
+                // (a deposit that names the pool manager itself as receiver of the LP tokens is not judged: the minted shares then
+                // legitimately land on the pool manager's own balance — `MonSound.monCpDeposit_sound_counterexample`)
+                if matches!(pb.pool_type, PoolType::ConstantProduct) && pb.assets.len() == 2 && tx.args.get(3).map(|r| r != "pm").unwrap_or(true) {
                     let d0 = &pb.assets[0].denom; let d1 = &pb.assets[1].denom;
                     let dx = tx.funds.iter().find(|f| &f.0 == d0).map(|f| f.1).unwrap_or(0);
                     let dy = tx.funds.iter().find(|f| &f.0 == d1).map(|f| f.1).unwrap_or(0);
